@@ -113,6 +113,8 @@ type Op struct {
 	Old   SizeSpec  `json:"old"`
 	Proof ProofSpec `json:"proof"`
 	Note  string    `json:"note,omitempty"` // generator's label for the op (class), informational
+	// Body asks HTTP targets to damage the request body (kind = defect name).
+	Body *Mutation `json:"body,omitempty"`
 	// Faults makes storage calls of this request fail (targets that support it).
 	Faults []FaultSpec `json:"faults,omitempty"`
 }
